@@ -198,6 +198,14 @@ def check_props_file(pid, make_out):
     return len(thms), discharged, thms, note
 
 
+# optional per-property fallback (spec key "check_fallback": {"primary": "Model.Cxx_Check", "fallback": "Model.Cxx_CheckSpec"}):
+# when a cases file does not compile with the primary Check module (e.g. because a Gen table it imports could not be
+# regenerated), it is re-evaluated with the fallback module, which must define the same case type and `failing`
+# (the property part only) without importing what broke. The run is then never reported as OK.
+CHECK_FALLBACK = None
+FALLBACK_USED = []
+
+
 def eval_cases(files):
     """coqc each cases file in parallel; returns (fails list of (file, id, code, tag), errors)"""
     procs = []
@@ -212,6 +220,16 @@ def eval_cases(files):
             running.append((f, p))
         f, p = running.pop(0)
         o, _ = p.communicate()
+        if p.returncode != 0 and CHECK_FALLBACK:
+            txt = open(f).read()
+            if CHECK_FALLBACK["primary"] in txt:
+                with open(f, "w") as fh:
+                    fh.write(re.sub(re.escape(CHECK_FALLBACK["primary"]) + r"\b", CHECK_FALLBACK["fallback"], txt))
+                rc2, o2 = sh(["timeout", "1200", "coqc", "-Q", ".", "V", "-w", "-notation-overridden", os.path.relpath(f, COQ)], cwd=COQ)
+                if rc2 == 0:
+                    FALLBACK_USED.append((os.path.basename(f), o[-600:]))
+                    o = o2
+                    p.returncode = 0
         if p.returncode != 0:
             errs.append((f, o[-2000:]))
             continue
@@ -506,6 +524,9 @@ def run_check(pid, tier, seed, replay):
         diag = run_diag(pid, spec)
 
     # 3. harness
+    global CHECK_FALLBACK
+    CHECK_FALLBACK = spec.get("check_fallback")
+    del FALLBACK_USED[:]
     evals = 0
     side_all = {}
     fails = []
@@ -611,6 +632,14 @@ def run_check(pid, tier, seed, replay):
                               "fails": [(code, tg) for (_, i, code, tg) in fails if i == cid_]}, indent=1))
         return 1 if fails else 0
 
+    if FALLBACK_USED:
+        msg = "primary check module %s did not compile; %d case file(s) evaluated with %s (property part only): %s" % (
+            CHECK_FALLBACK["primary"], len(FALLBACK_USED), CHECK_FALLBACK["fallback"], FALLBACK_USED[0][1][-300:])
+        notes.append(msg)
+        log(msg)
+        if not any(v[0] == "proof-break" for v in violations) and not proof_broken:
+            violations.append(("proof-break", "check module " + CHECK_FALLBACK["primary"],
+                               {"obligation": "correspondence (model = implementation) could not be evaluated", "error": msg[-1500:]}, True))
     if harness_err:
         notes.append(harness_err)
         log(harness_err)
@@ -736,7 +765,7 @@ def run_check(pid, tier, seed, replay):
             p = write_replay(pid, "%s_%d" % (kind, k), obj)
             k += 1
             line = "VIOLATION property=%s replay=%s kind=%s %s" % (pid, p, kind, name)
-            if nofail:
+            if nofail and not any(v[0] == "counterexample" for v in violations):
                 line += " no-failing-input-found"
             print(line)
         return 1
